@@ -438,13 +438,36 @@ func (m *Monitors) after(o *Op, res string, pre *Pre) {
 	m.evals["C20"]++
 	if res == "panic" {
 		tag := ""
-		if strings.Contains(o.Note, "Int overflow") && (o.Kind == "bind" || o.Kind == "update") {
-			tag = "K1: "
+		if strings.Contains(o.Note, "Int overflow") {
+			switch {
+			case m.k6Input(o, pre):
+				tag = "K6: " // stored deposit + top-up needs more than 255 bits
+			case o.Kind == "bind" || o.Kind == "update":
+				tag = "K1: "
+			}
 		}
 		m.fail("C20", "%s%s panicked: %s", tag, o.Kind, o.Note)
 	}
 	m.relational(o, res, pre, s, bal, esc, dep, fee, sup)
 	m.c18(s)
+}
+
+// k6Input: an update / enable whose top-up, added to the stored deposit, exceeds the largest sdk.Int
+// (known finding K6: Coins.Add panics before the owner is asked to pay).
+func (m *Monitors) k6Input(o *Op, pre *Pre) bool {
+	if (o.Kind != "update" && o.Kind != "enable") || o.Dep.Kind != "B" || pre == nil || pre.snap == nil {
+		return false
+	}
+	b, ok := pre.snap.Binds[bindKey{m.r.a.svcName[o.Svc], string(m.r.a.addr(o.Prov))}]
+	if !ok {
+		return false
+	}
+	amt := big.NewInt(o.Dep.Amt)
+	if o.Dep.Big != "" {
+		amt, _ = new(big.Int).SetString(o.Dep.Big, 10)
+	}
+	sum := new(big.Int).Add(b.Deposit.AmountOf(denom).BigInt(), amt)
+	return sum.BitLen() > 255
 }
 
 func sortedInt64(m map[int64]*big.Int) []int64 {
